@@ -27,6 +27,14 @@ CLAIMED = {
          'deterministic simulation: seeded scheduler + scripted peer pushing notifications singly/grouped; exact routing and buffer-occupancy reference model over stamped events',
          'Seeded search over push sequences (live/ended/unknown ids, close and method notifications, grouped into arrays in drawn ways), consumer paces, unsubscribe/drop points and task schedules; each stream is compared with an executable model that is advanced by the stamped events "push handed to the client" and "consumer took an item", so contents, order, end of stream, close reason and the number of unsubscribe requests on the wire are decided exactly for each explored run. Sampling, not enumeration.',
          'A task poll is atomic (the occupancy model relies on it); scripted peer; in-memory transport.'),
+ 'C07': ('exploration', 'srvsim', 'DESIGN.md §8 C07',
+         'deterministic simulation as a configuration/entry-point swarm: two real servers that differ only in the response limit, boundary-sized requests pipelined over WebSocket and sent over three HTTP body framings through both assemblies; handler invocation log as oracle',
+         'Seeded search over (request limit, two response limits) from an unequal grid x entry point x transport x body framing x sizes limit-1/limit/limit+1/2x/10x: nothing above the limit reaches a handler, WebSocket answers -32007/null once per oversized frame and keeps serving, HTTP answers an error status, messages up to the limit get their normal answer, and the two servers agree message by message. Schedule and faults matter little here (stated in the evidence); sampling, not enumeration.',
+         'A task poll is atomic; Server::start accept loop not used.'),
+ 'C08': ('exploration', 'srvsim', 'DESIGN.md §8 C08',
+         'deterministic simulation used as a wire-length monitor on every reply path with per-run limits; boundary workload by seeded generation; differential across two request limits',
+         'Modest level: schedule and faults have no bearing on this property. Per run a response limit, two servers differing only in the request limit, calls whose exact serialized response is limit-3..limit+3 (ASCII/escapes/multi-byte/error data) and a batch whose exact total is limit-3..limit+3, over WebSocket and HTTP and both assemblies: every reply frame is within the limit or is the -32008/-32011 error, fitting replies (exactly at the limit included) arrive unchanged with the independently computed length, oversized ones are replaced by the specified error, outcomes do not depend on the request limit.',
+         'Expected lengths are computed by the harness with format!; a task poll is atomic.'),
  'C09': ('fault_enumeration', 'clisim', 'DESIGN.md §8 C09',
          'deterministic simulation with fault injection: one transport fault or poison message per run, swept over every seam-event position of fault-free base runs and drawn randomly; seeded schedule search (incl. starvation of the shutdown watcher); cause oracle',
          'For each base run the fault (9 kinds: send error, receive error, peer close, 6 poison messages) is placed at every seam event (tx / peer push / delivery); on top of that seeded search over 29 fault kinds, positions and schedules. Oracle: no library panic, no operation left pending, every failed operation and on_disconnect carry the injected cause and never the placeholder, streams end, is_connected false. Positions are enumerated per base run; schedules and base runs are sampled.',
